@@ -326,4 +326,4 @@ def run(report, tier):
     report.space(len(states), transitions, bound,
                  "default trait + bounded deviations over dimensions %s; dyn delegation of traits that are not dyn-compatible is outside the "
                  "supported class (behavioural part skipped by rule); non-trivial = differs from the default" % ORDER)
-    evaluate(states, report, tier)
+    common.evaluate_chunked(evaluate, states, report, tier)
